@@ -463,12 +463,15 @@ def correspond(ctx):
     o_f = Oracle(ctx, "scheme-own-update-rule")
     for tag, inp, ok, obs, exp in scheme_flag_cases(rng, 120 if not ctx.thorough else 2500):
         o_f.check(tag, ok, inp, obs, exp)
+    o_rc = Oracle(ctx, "reconfigured-context-and-foreign-hasher-objects")
+    rf = reconfigured_failure()
+    o_rc.check("reconfigured", rf is None, (rf or {}).get("input", {"op": "reconfigured"}), (rf or {}).get("observed"), (rf or {}).get("expected", "the answers of a context built directly from the final configuration"))
     # ---- the same decisions on real hash strings: the context model composed with the C01 hasher models (suite `cstr`)
     from . import c04_str
 
     s_str = Suite(ctx, "context-over-hasher-models", batch=2000, model_canon=c04_str.canon)
     c04_str.model_suite(ctx, s_str, n=60 if not ctx.thorough else 1500)
-    return merge(s_cfg, s_dec, o_b, o_f, s_str)
+    return merge(s_cfg, s_dec, o_b, o_f, o_rc, s_str)
 
 
 # ------------------------------------------------------------------------------------------
@@ -539,6 +542,57 @@ def statement_search(ctx, n=400):
                                 # first-claimer rule checked above, and the configuration, not the library, makes the fresh hash look foreign
             if obs != (want_id, False):
                 return {"input": {"op": "category-fresh", "kwds": kw, "category": cat}, "observed": repr(obs), "expected": repr((want_id, False))}
+    return None
+
+
+def reconfigured_failure():
+    """real code only; returns a failing-input record or None"""
+    from passlib import registry
+    from passlib.context import CryptContext
+
+    # a context reconfigured after construction answers like one built directly from the final configuration — calls that carry context
+    # keywords (user=) included; and hasher OBJECTS taken from another context carry nothing of that context's policy into this one
+    final = dict(schemes=["sha256_crypt", "postgres_md5", "md5_crypt"], sha256_crypt__default_rounds=1000, deprecated=["postgres_md5"])
+    direct = CryptContext(**final)
+    hs_sha = registry.get_crypt_handler("sha256_crypt").using(rounds=1000).hash("pw")
+    hs_pg = registry.get_crypt_handler("postgres_md5").hash("pw", user="u")
+
+    def answers(c):
+        out = []
+        for f in (lambda: c.verify("pw", hs_sha, user="u"), lambda: c.verify("pw", hs_pg, user="u"), lambda: c.verify_and_update("pw", hs_sha, user="u"),
+                  lambda: c.verify_and_update("pw", hs_pg, user="u")[0], lambda: c.identify(hs_pg), lambda: c.needs_update(hs_pg), lambda: bool(c.hash("pw", user="u"))):
+            try:
+                out.append(f())
+            except Exception as e:  # noqa: BLE001
+                out.append(errname(e))
+        return out
+
+    want = answers(direct)
+    for start in ({}, {"schemes": ["md5_crypt"]}, {"schemes": ["des_crypt", "md5_crypt"], "deprecated": ["des_crypt"]}):
+        for how in ("load", "update", "copy", "load-twice", "using"):
+            c = CryptContext(**start)
+            if how == "load":
+                c.load(final)
+            elif how == "update":
+                c.update(**final)
+            elif how == "copy":
+                c = c.copy(**final)
+            elif how == "using":
+                c = c.using(**final)
+            else:
+                c.load({"schemes": ["postgres_md5"]})
+                c.load(final)
+            got = answers(c)
+            if got != want:
+                return {"input": {"op": "reconfigured", "start": start, "how": how, "final": final}, "observed": got, "expected": want}
+    a_ctx = CryptContext(["sha256_crypt", "md5_crypt", "des_crypt"], deprecated=["md5_crypt", "des_crypt"], sha256_crypt__default_rounds=1000)
+    for src in ("handler()", "schemes(resolve=True)"):
+        objs = [a_ctx.handler("md5_crypt"), a_ctx.handler("des_crypt")] if src == "handler()" else [h for h in a_ctx.schemes(resolve=True) if h.name != "sha256_crypt"]
+        b_ctx = CryptContext(schemes=objs)
+        fresh = b_ctx.hash("pw")
+        obs = (b_ctx.identify(fresh), b_ctx.needs_update(fresh), b_ctx.verify_and_update("pw", fresh))
+        if obs != ("md5_crypt", False, (True, None)):
+            return {"input": {"op": "hashers-from-another-context", "source": src}, "observed": repr(obs), "expected": "('md5_crypt', False, (True, None)): the default scheme's fresh hash is not flagged"}
     return None
 
 
@@ -628,6 +682,9 @@ def search(ctx, broken, seeds):
             got = registry.get_crypt_handler(d).from_string(fresh).rounds
             if got != 4000:
                 return {"input": {"op": "category-all-option", "kwds": kw, "category": "admin", "call": "hash"}, "observed": {"hash": fresh, "rounds": got}, "expected": 4000}
+    r = reconfigured_failure()
+    if r:
+        return r
     # per-category `deprecated`: the value that APPLIES to the category decides ("auto" = everything but that category's default; a list =
     # exactly the listed schemes; an empty list = nothing), whichever spelling the global setting uses
     base_schemes = ["sha256_crypt", "md5_crypt", "des_crypt"]
